@@ -15,7 +15,7 @@ RES = ["INF", "NAN", "ZERO", "ONE", "NONE"]
 ALLM = ["DSC", "IOU", "ASSD", "RVD"]
 SQ = {"IOU": "sq", "DSC": "sq_dsc", "ASSD": "sq_assd", "RVD": "sq_rvd", "clDSC": "sq_cldsc"}
 RULE = (
-    "Handlers drawn from the full product (per evaluated metric 4 scenarios x 5 results {INF,NAN,ZERO,ONE,NONE}; 5 "
+    "Handlers: the library default (a quarter of the cases, after other handlers may have been constructed) or drawn from the full product (per evaluated metric 4 scenarios x 5 results {INF,NAN,ZERO,ONE,NONE}; 5 "
     "empty-list values), instance-metric subsets of {DSC,IOU,ASSD,RVD} (+clDSC in 2-/3-D), every scenario realised "
     "through each input type: no instances; empty prediction; empty reference; both non-empty without a match "
     "(disjoint; overlapping below the matching threshold; matched input with disjoint label sets; every matched "
@@ -90,7 +90,8 @@ def case_strategy(draw):
         "matcher": None if it == "MATCHED_INSTANCE" else {"kind": draw(st.sampled_from(["naive", "naive", "merge"])), "metric": mm, "thr": thr, "m2o": False},
         "decision": dec,
         "imetrics": mets,
-        "handler": draw(handler_cfg(mets)),
+        # a quarter of the cases use the library's default handler (after other handlers may have been built by the primes)
+        "handler": draw(handler_cfg(mets)) if draw(st.integers(0, 3)) else None,
         "handler2": draw(handler_cfg(mets)),
         "real": real,
         "primes": draw(st.lists(st.sampled_from(sorted(lib.PRIMES)), min_size=0, max_size=2)) if draw(st.integers(0, 2)) == 0 else [],
@@ -161,11 +162,14 @@ def check(case, stats):
     zero_tp = all(e["tp"] == 0 for e in exps)
     n_pred, n_ref = info["n_pred"], info["n_ref"]
     hc = case["handler"]
+    lib_handler = hc  # what is passed to the evaluator (None = library default)
+    if hc is None:
+        hc = {"std": lib.DEFAULT_HANDLER["std"], "metrics": {m: lib.DEFAULT_HANDLER["metrics"][m] for m in mets}}
     if zero_tp:
         scen = "NO_INSTANCES" if n_pred + n_ref == 0 else "EMPTY_PRED" if n_pred == 0 else "EMPTY_REF" if n_ref == 0 else "NORMAL"
         nontrivial = any(len(set(hc["metrics"][m])) > 1 for m in mets)
-        stats.record(case, nontrivial, [f"scenario={scen}", f"input={cfg['input']}", f"real={case['real'].split(':')[0]}"])
-        ev = lib.evaluator({**cfg, "handler": hc, "gmetrics": []})
+        stats.record(case, nontrivial, [f"scenario={scen}", f"input={cfg['input']}", f"real={case['real'].split(':')[0]}", "default_handler" if lib_handler is None else "custom_handler"])
+        ev = lib.evaluator({**cfg, "handler": lib_handler, "gmetrics": []})
         res = H.lib_call(ev.evaluate, pred, ref)["ungrouped"][0]
         ob = H.lib_call(observe, res, mets)
         if ob["tp"] != 0:
@@ -189,7 +193,7 @@ def check(case, stats):
             return
         stats.record(case, False, ["tp>0:handler_irrelevant", f"input={cfg['input']}"])
         obs = []
-        for h in (hc, case["handler2"]):
+        for h in (lib_handler, case["handler2"]):
             ev = lib.evaluator({**cfg, "handler": h, "gmetrics": []})
             try:
                 res = H.lib_call(ev.evaluate, pred, ref)["ungrouped"][0]
